@@ -53,6 +53,9 @@ def one(d):
 
 
 def main():
+    update = "--update-meta" in sys.argv
+    if update:
+        sys.argv.remove("--update-meta")
     pats = sys.argv[1:]
     ds = sorted(d for d in os.listdir(SEEDED) if os.path.exists(os.path.join(SEEDED, d, "meta.json")) and (not pats or any(p in d for p in pats)))
     with ProcessPoolExecutor(max_workers=16) as ex:
@@ -63,6 +66,12 @@ def main():
             own = out.get(tgt)
             others = {k: v for k, v in out.items() if k != tgt}
             print(f"{d:<14} target {tgt}: {','.join(own) if own else 'MISSED':<14} others: " + " ".join(f"{k}[{','.join(v)}]" for k, v in sorted(others.items())))
+            if update:
+                mp = os.path.join(SEEDED, d, "meta.json")
+                meta = json.load(open(mp))
+                meta["current_matrix"] = {"how": "tools/seed_matrix.py: patch replayed in memory (sa/patch.py) against every property's quick check of the committed checkers",
+                                          "target_rules": own or [], "other_checks": others}
+                json.dump(meta, open(mp, "w"), indent=1)
 
 
 if __name__ == "__main__":
